@@ -144,6 +144,15 @@ def r08_1(ctx, rep):
         raise MechanismMissing(R, "fewer than 5 modification merge sites found")
 
 
+def _symbol_loop(fn):
+    """(key var, value var, loop) of `for k, v in <instance>.symbols.items()` in build_instance_tree"""
+    for n in walk_local(fn):
+        if isinstance(n, ast.For) and isinstance(n.target, ast.Tuple) and len(n.target.elts) == 2 and all(isinstance(e, ast.Name) for e in n.target.elts) \
+                and norm(n.iter).endswith(".symbols.items()") and any(is_name(c.func, fn.name) for c in calls(n)):
+            return n.target.elts[0].id, n.target.elts[1].id, n
+    return None, None, None
+
+
 def _in_try(node) -> bool:
     """the main symbol-descent site (wrapped in try/except that re-raises with the symbol's name)"""
     p = getattr(node, "_parent", None)
@@ -157,11 +166,14 @@ def _in_try(node) -> bool:
 def _cleared_after_build(ctx, R) -> bool:
     fn = ctx.func(TREE, "build_instance_tree", R)
     cfg = CFG(fn, R)
-    builds = [x for x in cfg.stmts() if isinstance(x.ast, ast.Assign) and norm(x.ast.targets[0]).endswith(".type")
+    _k, sym, _lp = _symbol_loop(fn)
+    if sym is None:
+        return False
+    builds = [x for x in cfg.stmts() if isinstance(x.ast, ast.Assign) and norm(x.ast.targets[0]) == sym + ".type"
               and isinstance(x.ast.value, ast.Call) and is_name(x.ast.value.func, "build_instance_tree")
-              and norm(x.ast.targets[0]).split(".")[0] == "sym" and "sym.class_modification" in norm(x.ast.value)
+              and (sym + ".class_modification") in norm(x.ast.value)
               and _in_try(x.ast)]
-    clears = {x.id for x in cfg.stmts() if norm(x.ast) == "sym.class_modification = None"}
+    clears = {x.id for x in cfg.stmts() if norm(x.ast) == sym + ".class_modification = None"}
     if not builds or not clears:
         return False
     for b in builds:
@@ -176,11 +188,21 @@ def _cleared_after_build(ctx, R) -> bool:
     return True
 
 
+def _argument_lists(fn):
+    """locals holding a selection of modification arguments: list comprehensions over `<...>.arguments`"""
+    out = set()
+    for n in walk_local(fn):
+        if isinstance(n, ast.Assign) and isinstance(n.targets[0], ast.Name) and isinstance(n.value, ast.ListComp) \
+                and norm(n.value.generators[0].iter).endswith(".arguments"):
+            out.add(n.targets[0].id)
+    return out
+
+
 def _enclosing_arg_loop(node, fn):
     """innermost enclosing `for <v> in <selection of modification arguments>` loop variable"""
     p = getattr(node, "_parent", None)
     while p is not None and p is not fn:
-        if isinstance(p, ast.For) and isinstance(p.target, ast.Name) and isinstance(p.iter, ast.Name) and "argument" in p.iter.id:
+        if isinstance(p, ast.For) and isinstance(p.target, ast.Name) and isinstance(p.iter, ast.Name) and p.iter.id in _argument_lists(fn):
             return p.target.id
         p = getattr(p, "_parent", None)
     return None
@@ -248,17 +270,24 @@ def r08_2(ctx, rep):
                     n += 1
                     rep.ob(R, fsite, "derived argument #%d" % n, False, "a ClassModificationArgument is built without taking over any scope")
     cfg = CFG(fn, R)
-    setters = {x.id for x in cfg.stmts() if norm(x.ast).startswith("arg.scope = ") and "extended_orig_class" in norm(x.ast)}
+    _k, sym, _lp = _symbol_loop(fn)
+    inst = _env_of(fn).get("instance")
+    if sym is None or inst is None:
+        raise MechanismMissing(R, "symbol loop / instance class of build_instance_tree not found")
+    guard_loop = [x for x in cfg.nodes if x.kind == "iter" and norm(x.ast.iter) == sym + ".class_modification.arguments" and isinstance(x.ast.target, ast.Name)]
+    lvs = {x.ast.target.id for x in guard_loop}
+    setters = {x.id: x.ast.targets[0].value.id for x in cfg.stmts() if isinstance(x.ast, ast.Assign) and isinstance(x.ast.targets[0], ast.Attribute)
+               and x.ast.targets[0].attr == "scope" and isinstance(x.ast.targets[0].value, ast.Name) and x.ast.targets[0].value.id in lvs
+               and any(is_name(y, inst) for y in ast.walk(x.ast.value))}
     builds = [x for x in cfg.stmts() if isinstance(x.ast, ast.Assign) and isinstance(x.ast.value, ast.Call)
-              and is_name(x.ast.value.func, "build_instance_tree") and "sym.class_modification" in norm(x.ast.value)
+              and is_name(x.ast.value.func, "build_instance_tree") and (sym + ".class_modification") in norm(x.ast.value)
               and _in_try(x.ast)]
     ok = bool(setters) and bool(builds)
     for b in builds:
-        guard_loop = [x for x in cfg.nodes if x.kind == "iter" and norm(x.ast.iter) == "sym.class_modification.arguments"]
         ok = ok and any(g.id in cfg.dominators()[b.id] for g in guard_loop)
-    # the setter must be under `if arg.scope is None`
-    for s in setters:
-        g = cfg.dominated_by(s, lambda x: x.kind == "assume" and x.taken and norm(x.ast) == "arg.scope is None")
+    # the setter must be under `if <arg>.scope is None`
+    for s_, lv in setters.items():
+        g = cfg.dominated_by(s_, lambda x: x.kind == "assume" and x.taken and norm(x.ast) == lv + ".scope is None")
         ok = ok and bool(g)
     n += 1
     rep.ob(R, site, "unscoped arguments scoped before descent", ok,
@@ -279,15 +308,18 @@ def r08_3(ctx, rep):
     fn = ctx.func(TREE, "build_instance_tree", R)
     site = TREE + ":build_instance_tree"
     selectors = {}
+    symkey, _sym, _lp = _symbol_loop(fn)
+    if symkey is None:
+        raise MechanismMissing(R, "symbol loop of build_instance_tree not found")
     for n in walk_local(fn):
         if isinstance(n, ast.Assign) and isinstance(n.targets[0], ast.Name) and isinstance(n.value, ast.ListComp):
-            if any(isinstance(c, ast.Compare) and norm(c.left).endswith(".value.component.name") for c in ast.walk(n.value)):
+            # symbol selectors compare the first name with the key of the symbol loop (the nested-class selector compares
+            # with a class name: every dotted input there ends in an exception further down (DESIGN C08), not armed)
+            if any(isinstance(c, ast.Compare) and norm(c.left).endswith(".value.component.name") and is_name(c.comparators[0], symkey) for c in ast.walk(n.value)):
                 selectors.setdefault(n.targets[0].id, []).append(n)
     inst = 0
     for loop in walk_local(fn):
         if isinstance(loop, ast.For) and isinstance(loop.iter, ast.Name) and loop.iter.id in selectors and isinstance(loop.target, ast.Name):
-            if loop.iter.id == "sub_class_arguments":
-                continue  # nested-class selector: every dotted input ends in an exception further down (DESIGN C08), not armed
             # which branch of the symbol dispatch are we in?
             where = "non-elementary"
             p = getattr(loop, "_parent", None)
